@@ -609,6 +609,7 @@ EXTRA = {
     "C30": "C30.sink is interpreted with filesystem isolation active (the builtin open refuses /dev/null) when the executor enters the isolation first; C30.tracked (must-pass): every seeded Random instance is registered for reseeding.",
     "C31": "C31.aux: every executor the subprocess executor builds for itself receives this executor's module provider and time bounds.",
     "C32": "C32.proxy: single-call methods of the tracer proxy forward to the wrapped method of the same name; C32.namespace: the namespace dict of an execution is created per call and not kept on the executor.",
+    "C33": "C33.monotonic: a worker's running time is measured on a monotonic clock (a wall-clock step back would raise the restarted worker's budget).",
     "C34": "C34.edges: issubset against str / bytes / dict operands counts the elements they yield; the constructor keeps the elements of a falsy iterable.",
     "C35": "C35.html: the lexer the HTML template instantiates yields one highlighted line per source line (evaluated with the repository's pygments); C35.regular-result: the result returned by the type-tracing executor is never the proxied execution's.",
     "C01": "Tracer callbacks are also interpreted for receivers whose attribute lookup raises KeyError / ZeroDivisionError / decimal signals (nothing may escape into the module under test).",
@@ -617,6 +618,7 @@ EXTRA = {
     "C04": "Byte-string distances are also evaluated for non-UTF-8 operands; the partition includes user classes with partial / inconsistent rich-comparison protocols, str subclasses with their own comparison, containers whose __contains__ disagrees with iteration, and exception classes with a metaclass hook or ABC registration (MRO oracle).",
     "C05": "C05.record: every predicate callback reaches _update_metrics; an early return is allowed only under the one-shot-iterator guard of its operand and never under a condition that reads tracer state.",
     "C07": "C07.deps interprets the control-dependence queries over graphs with chains of unlabelled edges, a single-call fixed point and roots reached through two unlabelled controllers.",
+    "C09": "C09.frame-flag: the scalar per-code-object flag of the slicing context is computed from the current instruction's state only (a value accumulated in one scalar mixes nested frames).",
     "C10": "C10.mio-covered interprets MIOArchive.update over a grid of fitness values: the heuristic value 1.0 (target covered) exactly for a fitness of zero.",
     "C11": "The Chromosome comparison / sorting helpers are checked to be stateless between calls.",
     "C12": "C12.laws interprets ComputationCache over every sequence (depth 3 quick / 4 thorough) of registrations, chromosome changes and queries: each getter returns what the registered functions compute on the current state; set_fitness_values (local search restoring a test) keeps fitness and covered verdict in agreement.",
